@@ -487,7 +487,7 @@ func (m *Machine) conv(tDst, tSrc types.Type, x Value) Value {
 			if isString(tDst) {
 				// string(rune)
 				if !t.IsConst() {
-					m.path.abort("unsupported", "string(int) with symbolic value")
+					return m.encodeRuneSym(c.Resize(t, 64, signed))
 				}
 				var r rune
 				if signed {
@@ -619,4 +619,33 @@ func (m *Machine) decodeRune(s Str, pos int) (*sym.Term, int) {
 		return bad, 1
 	}
 	return c.BOr(c.BOr(c.BOr(sh(c.BAnd(ext(b0), c.Const(32, 0x07)), 18), sh(cont(bs[pos+1]), 12)), sh(cont(bs[pos+2]), 6)), cont(bs[pos+3])), 4
+}
+
+// encodeRuneSym is string(rune) for a symbolic code point (64-bit, already
+// sign/zero-extended): forks on the UTF-8 length class.
+func (m *Machine) encodeRuneSym(v *sym.Term) Value {
+	c := m.ctx
+	k := func(x uint64) *sym.Term { return c.Const(64, x) }
+	b8 := func(t *sym.Term) *sym.Term { return c.Extract(t, 7, 0) }
+	cont := func(sh uint64) *sym.Term {
+		return b8(c.BOr(c.BAnd(c.LShr(v, k(sh)), k(0x3f)), k(0x80)))
+	}
+	lead := func(sh, mark uint64) *sym.Term { return b8(c.BOr(c.LShr(v, k(sh)), k(mark))) }
+	bad := Str{S: "\uFFFD"}
+	if m.path.Branch(c.Ult(v, k(0x80))) {
+		return mkStr([]*sym.Term{b8(v)})
+	}
+	if m.path.Branch(c.Ult(v, k(0x800))) {
+		return mkStr([]*sym.Term{lead(6, 0xC0), cont(0)})
+	}
+	if m.path.Branch(c.Ult(v, k(0x10000))) {
+		if m.path.Branch(c.And(c.Ule(k(0xD800), v), c.Ule(v, k(0xDFFF)))) {
+			return bad
+		}
+		return mkStr([]*sym.Term{lead(12, 0xE0), cont(6), cont(0)})
+	}
+	if m.path.Branch(c.Ule(v, k(0x10FFFF))) {
+		return mkStr([]*sym.Term{lead(18, 0xF0), cont(12), cont(6), cont(0)})
+	}
+	return bad
 }
